@@ -59,7 +59,7 @@ CHECKS = {
         text="Coq theorems: every wait of initialize() is a timed wait whose bound is a closed form over the regenerated constants and tables (phases_bound), the worst case over all 23 classes "
         "is <= 300 s; after close() the accessors are cleared, the connection dropped and (C16) the port closed and threads stopped. Fault enumeration on the real code under the deterministic "
         "harness: for a recorded and synthetic devices, silence after the k-th reply for every k, end-of-file / I/O error after byte offsets including the end of EVERY synchronisation reply "
-        "(between two phases) and inside CR LF, write errors at every other write, port-open failure; monitor: library exception, within the bound, nothing left behind. Devices include receivers with one zone only (the subunits initialised last are input sources).",
+        "(between two phases) and inside CR LF, write errors at every other write, port-open failure; monitor: library exception, within the bound, nothing left behind. Devices include receivers with one zone only (the subunits initialised last are input sources). 'Never returns normally' also as a theorem: Model/Startup.v (initialize() as a sequence of phases: availability scan, SYS, every detected subunit) with four flags read off the AST on every run (both timed waits raise when they expire, nothing swallows a subunit's failure, the try/finally -- or except-BaseException-reraise -- closes unless the try-body ran to its end): for EVERY pattern of answered/unanswered phases initialize() returns iff every phase was answered, a failure has released everything, a success exposes one object per phase; skipping a failed subunit is refuted with a witness. The phase structure of every enumerated session is replayed in that model.",
         note=BASE_NOTE + HARNESS_NOTE + " PARTIAL: 'raises rather than returns' for each fault position is established by the enumeration on the real code (every k in quick for the recorded device, strided for others), not by a theorem about the Python exception flow.",
         technique="Coq proof (closed-form bound by reflection over regenerated constants) + exhaustive fault-position enumeration via deterministic simulation",
         design_ref="6 (C14)",
@@ -113,7 +113,7 @@ CHECKS = {
         text="Coq theorems about the whole reader-thread path as one total function with explicit exceptions (framing -> UTF-8 replace decoding -> parse -> every "
         "subunit handler incl. value decoding): never Raise for EVERY chunk sequence / instance set / oracle; composition (later input processed normally); an undecodable "
         "value keeps the previous value; typing invariant of all cached values. The real path (YncaProtocol.data_received -> YncaConnection -> 23 real instances) is fed "
-        "every (function x odd text) line, runs of 2..200 (thorough ..5000) malformed / undecodable / error / invalid-UTF-8 / unknown lines back to back, and random hostile streams, judged by monitors, and compared with the model.",
+        "every (function x odd text) line, runs of 2..200 (thorough ..5000) malformed / undecodable / error / invalid-UTF-8 / unknown lines back to back, and random hostile streams, judged by monitors, and compared with the model. That handle_line contains no raise statement of its own is a reflection obligation over a flag read off the AST (p_handle_line_raises_nothing).",
         note=BASE_NOTE + "Modelled, not verified: that an exception escaping data_received ends pyserial's reader loop (read from pyserial's source); user callbacks that raise are outside the statement.",
         technique="Coq proof (total function with explicit exception channel, invariants) + differential correspondence on hostile byte streams",
         design_ref="6 (C10)",
@@ -133,7 +133,7 @@ CHECKS = {
         "interleaving, any device): FIFO (enq = deq ++ queue), exactly-once/in-order (written items ++ item in hand = non-marker items dequeued), wire is a prefix of the "
         "submissions, per-caller order, idle implies all written, each write is frame(text) = one CRLF line that decodes back unchanged, only the sender writes. "
         "The real ynca/pyserial threads run unmodified under a deterministic simulation harness; each recorded event trace is replayed in the model (every event must be enabled; "
-        "wire, deliveries and log equal) and judged by an independent monitor. A quarter of the sessions run beside a second, independent connection of the same process and a fifth are the second session of the same object (nothing may cross over or carry over). 4 % of the sessions contain a burst of 70-300 (thorough -1100) commands; per caller, the commands handed to put/get/raw while the connection was up are compared with what entered the queue.",
+        "wire, deliveries and log equal) and judged by an independent monitor. A quarter of the sessions run beside a second, independent connection of the same process and a fifth are the second session of the same object (nothing may cross over or carry over). 4 % of the sessions contain a burst of 70-300 (thorough -1100) commands; per caller, the commands handed to put/get/raw while the connection was up are compared with what entered the queue. That raw()/put()/the keep-alive put their item into the queue with nothing on the path that could drop it is also a reflection obligation over a flag read off the AST (p_enqueue_lossless).",
         note=BASE_NOTE + "Modelled, not verified: pyserial ReaderThread/LineReader, queue.Queue, threading.Event/Lock/Thread.join, time.sleep and the port are replaced by the harness's simulated primitives (their contracts are the model's assumptions); real-clock behaviour and OS scheduling latency are outside every theorem.",
         technique="Coq proof by invariants over a labelled transition system (all schedules) + trace-inclusion correspondence via deterministic simulation",
         design_ref="6 (C01), 3.3, 4.2",
